@@ -81,6 +81,7 @@ def run(cx):
     _run3(cx)
     # mod_n_from_hash belongs to C16 (hash-to-range); everything else in the crate is field/scalar arithmetic
     S.carry_chain(cx, 'A-CARRY', ('gm_sm9::',), 4, exclude=('mod_n_from_hash',))
+    S.carry_by_comparison(cx, 'A-CARRY', ('gm_sm9::',))
     from .. import rules_a as A
     A.a_grade(cx, 'A-GRADE', 30)
     fn = cx.fn('gm_sm9::fields::mod_n_mul', 'I-BARRETT')
